@@ -195,6 +195,9 @@ func (e *Engine) callFunc(st *State, fn *ssa.Function, binds []Val, args []Val, 
 	e.bumpAlloc(st)
 	if e.P.inRepo(fn) && fn.Blocks != nil {
 		for h := range e.P.modset(e, fn) {
+			if os.Getenv("SPECV_DEBUG_MODSET") != "" {
+				fmt.Fprintf(os.Stderr, "modset (unmodelled) %s: %s\n", fn.Name(), h)
+			}
 			e.heapHavoc(st, h)
 		}
 		// plus everything reachable through the arguments in one step (dynamic calls inside
